@@ -276,7 +276,16 @@ class Interp:
                 else:
                     cur &= rhs
                 return
-            v = self.binop(type(st.op), cur, self.eval(st.value, env, mod), st)
+            rhs = self.eval(st.value, env, mod)
+            inplace = {ast.Add: "__iadd__", ast.Sub: "__isub__", ast.Mult: "__imul__", ast.BitOr: "__ior__", ast.BitAnd: "__iand__"}.get(type(st.op))
+            if inplace and self.obj_class(cur) is not None:
+                m, _ = self.find_method(self.obj_class(cur), inplace)
+                if m is not None:
+                    v = self.call_function(m, [rhs], {}, self_obj=cur)
+                    if v is not NotImplemented:
+                        self.assign(st.target, v, env, mod)
+                        return
+            v = self.binop(type(st.op), cur, rhs, st)
             self.assign(st.target, v, env, mod)
         elif isinstance(st, ast.Return):
             raise _Return(self.eval(st.value, env, mod) if st.value is not None else None)
